@@ -89,12 +89,46 @@ func run(c *mon.Case) {
 		sh[k] = &regShadow{ex: refir.Clone(e), w: int(w), print: refir.String(e), orig: e}
 		return true
 	}
+	type pastVal struct {
+		ex expr.Expr
+		w  expr.Width
+		k  string
+	}
+	var pastVals []pastVal
 	for op := 0; op < 30 && !c.Failed(); op++ {
 		k := keys[r.Intn(len(keys))]
 		switch x := r.Intn(100); {
 		case x < 35:
 			e := g.Expr(r.Intn(3))
-			if !storeReg(k, e, gen.Width(r), r.Intn(2) == 0) {
+			w := gen.Width(r)
+			if len(pastVals) > 0 && r.Intn(4) == 0 {
+				// an earlier value (the same object, a structural copy, or what a Load
+				// returned) written again, to the same or another register, with the old,
+				// a narrower or a wider write width
+				o := pastVals[r.Intn(len(pastVals))]
+				e = o.ex
+				if r.Intn(2) == 0 {
+					e = refir.Clone(e)
+				}
+				switch r.Intn(4) {
+				case 0:
+					w = o.w
+				case 1:
+					if o.w > 1 {
+						w = expr.Width(1 + r.Intn(int(o.w)-1))
+					}
+				case 2:
+					if e.Width() > 1 {
+						w = expr.Width(1 + r.Intn(int(e.Width())-1))
+					}
+				}
+				if r.Intn(2) == 0 {
+					k = o.k
+				}
+				c.Count("reg_stores_of_an_earlier_value", 1)
+			}
+			pastVals = append(pastVals, pastVal{e, w, k})
+			if !storeReg(k, e, w, r.Intn(2) == 0) {
 				return
 			}
 			c.Count("reg_stores", 1)
@@ -139,6 +173,9 @@ func run(c *mon.Case) {
 				}
 			}
 			c.Count("loads", 1)
+			if r.Intn(3) == 0 {
+				pastVals = append(pastVals, pastVal{got, w, k})
+			}
 			if int(w) != s.w {
 				c.Nontrivial(fmt.Sprintf("%s|%d|%d", s.print, s.w, w))
 			}
@@ -245,7 +282,7 @@ func run(c *mon.Case) {
 func main() {
 	mon.Main(mon.Spec{
 		Prop: "C18",
-		Rule: "case = history of 30 register stores (directly and through State.Apply), register reads and memory-store applications over 3 register keys and 2 memory spaces; widths boundary-biased 1..255, values of all node kinds; memory store addresses closed (constants and constant expressions, widths 4..16) or depending on registers/memory; non-trivial = read whose width differs from the last write width, distinct by (value, write width, read width)",
+		Rule: "case = history of 30 register stores (directly and through State.Apply), register reads and memory-store applications over 3 register keys and 2 memory spaces; widths boundary-biased 1..255, values of all node kinds, a quarter of the register stores re-writing an earlier value or a value a Load returned (same object or copy) with the old, a narrower or a wider write width; memory store addresses closed (constants and constant expressions, widths 4..16) or depending on registers/memory; non-trivial = read whose width differs from the last write width, distinct by (value, write width, read width)",
 		Explanation: "oracle: Load(k,w) must evaluate (refir, 6 valuations) to adjust(adjust(last value, write width), w) and have width w; unwritten keys read (nil,false); Apply(MemStore) with a closed address must return true and the value must read back at address mod 2^64; with an address that takes different values on different valuations it must return false and leave a full snapshot of registers and memory blocks unchanged; addresses containing loads but constant in value are not judged",
 		Assumptions: []string{"refir evaluator", "stores touching address 2^64-1 are excluded (recorded C03 finding)"},
 		Cases: func(t string) int {
@@ -260,7 +297,7 @@ func main() {
 			}
 			return 30000
 		},
-		RequiredCounts: []string{"loads", "loads_unwritten", "memstores_refused", "memstores_constant_address", "reg_stores"},
+		RequiredCounts: []string{"loads", "loads_unwritten", "memstores_refused", "memstores_constant_address", "reg_stores", "reg_stores_of_an_earlier_value"},
 		Run:            run,
 	})
 }
